@@ -29,7 +29,12 @@ def space_s(V):
     import ufl
     if type(V) is not ufl.FunctionSpace:
         raise TypeError("C12 models plain FunctionSpace only, got %r" % type(V).__name__)
-    return "(fs %s %s)" % (mesh_s(V.ufl_domain()), enc(repr(V.ufl_element())))
+    lb = V.label()
+    if lb == "":
+        return "(fs %s %s)" % (mesh_s(V.ufl_domain()), enc(repr(V.ufl_element())))
+    if not isinstance(lb, str):
+        raise TypeError("function space labels other than str are outside the model, got %r" % (lb,))
+    return "(fs %s %s %s)" % (mesh_s(V.ufl_domain()), enc(repr(V.ufl_element())), enc(lb))
 
 
 def cser(o, memo=None):
@@ -47,7 +52,7 @@ def cser(o, memo=None):
 
 def _cser(o, memo):
     from ufl.classes import (IntValue, FloatValue, ComplexValue, Zero, MultiIndex, FixedIndex, Label, Argument, Coefficient,
-                             Constant, GeometricQuantity)
+                             Constant, GeometricQuantity, BaseFormOperator)
     name = o._ufl_class_.__name__
     if o._ufl_is_terminal_:
         if isinstance(o, IntValue):
@@ -62,8 +67,8 @@ def _cser(o, memo):
                 return "(R %d %d)" % frac(o._value)
             return "(TP FloatValue %s ())" % enc(repr(o))
         if isinstance(o, ComplexValue):
-            a, b = frac(o._value.real), frac(o._value.imag)
-            return "(C %d %d %d %d)" % (a + b)
+            # Model/Order.lean has no rendering of `repr(complex)`: complex literals travel as opaque terminals keyed by their repr
+            return "(TP ComplexValue %s ())" % enc(repr(o))
         if isinstance(o, Zero):
             return "(Z %s (%s))" % (nats(o.ufl_shape), " ".join("(%d %d)" % (c, d) for c, d in zip(o.ufl_free_indices, o.ufl_index_dimensions)))
         if isinstance(o, MultiIndex):
@@ -79,7 +84,11 @@ def _cser(o, memo):
         if isinstance(o, GeometricQuantity):
             return "(TG %s %s %s)" % (name, mesh_s(o._domain), nats(o.ufl_shape))
         return "(TP %s %s %s)" % (name, enc(repr(o)), nats(o.ufl_shape))
-    if name in uflio.GRADLIKE:
+    if isinstance(o, BaseFormOperator):
+        # C11: the data of a base form operator that is not an operand.  `aux` carries the derivative multi-index; the function
+        # space and the argument slots have no place in the model language (covered by the C11 oracle on the implementation only)
+        aux = nats(getattr(o, "derivatives", None) or ())
+    elif name in uflio.GRADLIKE:
         aux = nats(o.ufl_shape[-1:])
     elif name in uflio.SHAPE_AUX or name not in uflio.KNOWN_OPS:
         try:
@@ -108,8 +117,20 @@ def meta_s(md):
         v = md[k]
         if not (isinstance(v, (int, float, str)) or v is None):
             raise TypeError("metadata value %r is outside the C12 model" % (v,))
-        items.append("(%s %s)" % (enc(k), enc(str(v))))
+        items.append("(%s %s)" % (enc(k), enc(repr(v) if (isinstance(v, str) and _strrepr()) else str(v))))
     return "(" + " ".join(items) + ")"
+
+
+_STRREPR = []
+
+
+def _strrepr():
+    """which canonicalisation of string leaves the tree under test has (str() or, since the repair of C11/C15, repr()); what the
+    canonicalisation does is the subject of C11 / C15, here it only has to be rendered as the tree does"""
+    if not _STRREPR:
+        from ufl.utils.sorting import canonicalize_metadata
+        _STRREPR.append(canonicalize_metadata({"k": "a"}) == (("k", "'a'"),))
+    return _STRREPR[0]
 
 
 def integral_s(itg, memo):
